@@ -79,7 +79,15 @@ def variants(fmt):
     return [(c, t) for c in cells for t in times]
 
 
+ASAN_EVERY = {"quick": 0, "thorough": 4}
+GROUPS = {"thorough": [dict(name="asan", flavour="asan", workers=3)]}
+
+
 def gen_cases(tier, seed):
+    return common.with_asan_slice(_gen_cases(tier, seed), ASAN_EVERY[tier])
+
+
+def _gen_cases(tier, seed):
     i = 0
     nmax = 6 if tier == "thorough" else 5
     for fmt in STREAM:
